@@ -41,12 +41,15 @@ Proof. vm_compute. repeat split; reflexivity. Qed.
    delivered (fx_close = false) the sealing step is missing exactly in the F15 class. *)
 Theorem C03_sealed_is_silent : forall c es s, all_fixes c -> Sealed s ->
   Sealed (run_events c es s) /\
-  exists l, trace (run_events c es s) = trace s ++ l /\ forallb (fun e => negb (active_ev e)) l = true.
+  exists l, trace (run_events c es s) = trace s ++ l /\ forallb silent l = true.
 Proof.
   intros c es s F S. destruct (run_events_Z c es F s S) as [S' [l [T Q]]].
-  split; [exact S'|]. exists l. split; [exact T|].
-  erewrite forallb_ext; [exact Q|]. intros [] ; reflexivity.
+  split; [exact S'|]. exists l. split; [exact T|exact Q].
 Qed.
+
+(* [silent] = neither a response head nor a service call *)
+Theorem C03_silent_means_inactive : forall e, silent e = negb (active_ev e).
+Proof. intros []; reflexivity. Qed.
 
 Theorem C03_closing_response_seals : forall c who st ro bl bp s,
   fx_close (fx c) = true -> started s = true -> t_active (head_t s) = false ->
